@@ -90,7 +90,7 @@ class Ctx:
                     pass
             for f in fails:
                 f = dict(f)
-                f["case"] = case
+                f.setdefault("case", case)
                 f["index"] = self.index
                 self.failures.append(f)
         elif fails:
